@@ -102,7 +102,8 @@ func init() {
 								e.Stdout = "[" + strings.TrimSuffix(stdoutDest.String(), "\n") + "]\n"
 							}
 							exp, _ := json.Marshal(e)
-							cases = append(cases, &proto.Case{ID: fmt.Sprintf("c33-%d", id), Op: "prog", Block: block, Expect: exp, TimeoutMs: 60000,
+							// payloads above the 1 MiB stream limit need the harness to read while the program runs
+							cases = append(cases, &proto.Case{ID: fmt.Sprintf("c33-%d", id), Op: "prog", Block: block, Expect: exp, TimeoutMs: 60000, Drain: maxSize > 900<<10,
 								Vars: []proto.Var{{Name: "c33po", Type: "str", Value: po}, {Name: "c33pe", Type: "str", Value: pe}}})
 						}
 					}
